@@ -102,10 +102,10 @@ def fs_frame(repo):
 
 PROP = Prop(
     'C20', 'edit_rules only removes base structures, and only those that fail the filter',
-    functions=[er.ER + ':edit_length', er.ER + ':edit_terminal_set', er.ER + ':check_regex'],
+    functions=[er.ER + ':edit_length', er.ER + ':edit_terminal_set', er.ER + ':check_regex', er.ER + ':edit_rules'],
     lemmas=lambda: er.allmatch_mono.lemmas(),
     setup=er.install,
-    effects=fs_frame,
+    effects=effects.combine(fs_frame, effects.state_frame_for('C20', ['edit_rules.py'])),
     level='other',
     replay=script_replay('replay/edit.py', default_fn='C20'),
     bounded=[Bounded('C20.bounded.cli', 'replay/edit.py', args=['--fn', 'C20'],
@@ -119,13 +119,20 @@ PROP = Prop(
         're.findall / re.search / str.split / str.strip / int() are uninterpreted functions of their arguments in the deductive part (Toks, ReSearch, ...): that '
         "''.join(Toks(line)) is the structure the line started with (A-TOK, the locus of the repaired defect F12b) and what the regular expressions match are "
         'decided only within the bounds of C20.bounded.cli',
-        'edit_rules() itself (option plumbing over an untyped dict, file read/write) is not under a functional contract: covered by the frame and the CLI stand-in',
+        'edit_rules() is under contract over a ghost file system ($fs: path -> chunks written, fs_text(path): text a file holds at entry); config is a record whose '
+        "'copy', 'terminal_set' and 'regex' entries are None-or-value (parse_command_line stores False or leaves the key out; only their truth value and .get() are used); "
+        'exceptional exits (IOError / OSError) are unconstrained',
+        'A-SPLIT-CONCAT: that the output of one filter is again a text whose non-empty lines have two TAB-separated fields is a precondition of edit_rules (fields_wf of the four '
+        'candidate intermediate texts), true of rebuilt() lines but not derivable under the split abstraction; validated by C20.bounded.cli',
+        '_create_copy is trusted at the call site (A-COPYTREE: the copy is a byte copy of the source and nothing else changes); its body is decided by the AST frame. '
+        '_context_lengths is trusted as a function (lo <= hi) of the rule directory at call time: os.listdir / nested file iteration are outside the subset; a memoising decorator '
+        'on it is refused by the engine and reported by the state frame',
         'the frame does not see writes through aliases of open/shutil or through imported helpers (edit_rules.py imports none of the repository modules)',
     ],
     explanation='Deductive (all grammars, all parameters, regex engine abstracted): edit_length, edit_terminal_set and check_regex each return exactly the concatenation, in order, '
                 'of the (rebuilt) lines that pass the declarative filter -- labels A/D/O/K count their number, Y counts 4, a context-sensitive X counts between the two given context lengths, a structure that generates nothing (Markov) is kept, '
                 'otherwise the shortest guess must reach min_length and the longest must not exceed max_length (0 = unbounded); '
-                'every label letter in the terminal set; every regular expression matches the structure. Frame (AST, all paths): the only statements of edit_rules.py that change the file system are open(grammar_file, "w") in edit_rules(), with grammar_file = '
-                '<rules_dir>/<rule>/Grammar/grammar.txt, and shutil.copytree in _create_copy (source -> copy); so no other file of a ruleset is touched. '
+                'every label letter in the terminal set; every regular expression matches the structure. edit_rules() composes them: the one file written is <rules_dir>/<copy or rule>/Grammar/grammar.txt, it receives exactly regex(terminal_set(length(text read from that same file))) with each filter applied iff its option is set and with the context lengths of that same ruleset, and a copy is made iff --copy is given, from <rule> to <copy>, before anything is read. Frame (AST, all paths): the only statements of edit_rules.py that change the file system are open(grammar_file, "w") in edit_rules(), with grammar_file = '
+                '<rules_dir>/<rule>/Grammar/grammar.txt, and shutil.copytree in _create_copy (source -> copy); so no other file of a ruleset is touched; no module-level state or memo table carries an answer from one call to the next. '
                 'Bounded: filter semantics on the real CLI. Context-sensitive segments are measured with the real lengths of the ruleset (defect F12, repaired).',
 )
